@@ -1,11 +1,11 @@
 SPECIFICATION Spec
 CONSTANTS
-  MaxOps = 4
+  MaxOps = 5
   Deviations <- NoDev
   JunkBytes <- MCJunk
   RegistryOps = FALSE
-  Receivers = FALSE
-  OpSet <- AllOps
+  Receivers = TRUE
+  OpSet <- RcvOps
 CHECK_DEADLOCK FALSE
 
 INVARIANT Export
